@@ -50,3 +50,47 @@ def conditions(fn, nodes=False):
                 rec(ch, stack)
     rec(cfront.body(fn), [])
     return out
+
+
+def paths(fn, limit=4096):
+    """All paths through a loop-free function body made of if/else, returns, calls and assignments: each path is a list of
+    events ('cond', text) for a branch taken, ('call', callee, node) and ('return', node). Loops make the function
+    unsuitable (ValueError)."""
+    from ..cfront import callee_name, walk
+
+    def calls_of(node):
+        return [('call', callee_name(e), e) for e in walk(node) if e.get('kind') == 'CallExpr']
+
+    def seq(items, k):
+        """continuation-passing enumeration; k(events) -> iterable of complete paths"""
+        if not items:
+            yield from k([])
+            return
+        st, rest = items[0], items[1:]
+        kind = st.get('kind')
+        if kind in ('ForStmt', 'WhileStmt', 'DoStmt', 'SwitchStmt', 'GotoStmt'):
+            raise ValueError('%s in %s' % (kind, fn.get('name')))
+        if kind == 'CompoundStmt':
+            yield from seq(list(st.get('inner', [])) + rest, k)
+            return
+        if kind == 'ReturnStmt':
+            yield from ([*calls_of(st), ('return', st)],)
+            return
+        if kind == 'IfStmt':
+            c = st['inner'][0]
+            pre = calls_of(c)
+            branches = [(_txt(c), [st['inner'][1]])]
+            branches.append((_txt(normal.negate(c)), [st['inner'][2]] if len(st['inner']) > 2 and st['inner'][2].get('kind') else []))
+            for txt, blk in branches:
+                for p in seq(blk + rest, k):
+                    yield pre + [('cond', txt)] + p
+            return
+        ev = calls_of(st)
+        for p in seq(rest, k):
+            yield ev + p
+    out = []
+    for p in seq(list(cfront.body(fn).get('inner', [])), lambda ev: ([('return', None)],)):
+        out.append(p)
+        if len(out) > limit:
+            raise ValueError('too many paths in %s' % fn.get('name'))
+    return out
